@@ -369,8 +369,8 @@ class BlockParser(Parser[BlockState]):
         # scan children state
         child = state.child_state(text)
         if state.depth() >= self.max_nested_level - 1:
-            rules = list(self.block_quote_rules)
-            rules.remove("block_quote")
+            # at the nesting limit no container may open another container
+            rules = [r for r in self.block_quote_rules if r not in ("block_quote", "list")]
         else:
             rules = self.block_quote_rules
 
